@@ -312,7 +312,10 @@ Inductive case :=
    was not reached with the expected status, or a page was served without the template call the
    model predicts): always a model/implementation difference; the bytes actually served are still
    judged by the inertness monitor against the benign run of the same request *)
-| CDiverged (svc site : N) (ctype real : str) (benign : list seg).
+| CDiverged (svc site : N) (ctype real : str) (benign : list seg)
+(* a 30x answer: the status text, the Content-Type sent, the body (net/http's redirect note, or
+   nothing for a non-GET request) and the body of the benign run of the same request *)
+| CNote (svc site : N) (text ctype real : str) (benign : list seg).
 
 Definition tpls_of (svc : N) : templates := if svc =? 0 then proxy_templates else auth_templates.
 
@@ -338,15 +341,15 @@ Definition is_markup_type (ct : str) : bool :=
   has_prefix l [116;101;120;116;47;104;116;109;108] ||        (* text/html *)
   contains l [120;109;108] ||                                  (* xml *)
   contains l [115;118;103].                                    (* svg *)
-Definition is_json_type (ct : str) : bool :=
-  has_prefix (lower_ascii ct) [97;112;112;108;105;99;97;116;105;111;110;47;106;115;111;110].
+Definition is_json_type (ct : str) : bool := contains (lower_ascii ct) [106;115;111;110].   (* json *)
 
 (* Whatever form the body has: if its effective content type is markup, the skeleton clause applies
-   with the benign run of the same call site and combination as reference; if it claims JSON, it
-   must be one well-formed error object; other types (text/plain, ...) are not interpreted *)
+   with the benign run of the same call site and combination as reference; if it claims JSON, the
+   whole body must be exactly one well-formed JSON value (RFC 8259, well-formed UTF-8), on every
+   route; other types (text/plain, ...) are not interpreted *)
 Definition resp_inert (ctype body benign : str) : bool :=
   if is_markup_type ctype then page_inert body benign
-  else if is_json_type ctype then json_error_doc_ok body
+  else if is_json_type ctype then match body with [] => true | _ => json_doc_ok body end
   else true.
 
 (* the bytes written for one placeholder: no markup delimiter, quote or NUL, every ampersand
@@ -398,6 +401,17 @@ Definition judge (c : case) : N :=
       code (negb (str_eqb m body) || negb (is_json_type ctype)) (resp_inert ctype body (rebuild body benign)) 0
   | CDiverged svc site ctype real benign =>
       code true (resp_inert ctype real (rebuild real benign)) 0
+  | CNote svc site text ctype real benign =>
+      (* model: http.Redirect -- no body, or the note around a URL that is exactly what
+         net/http's escaper writes for the URL it decodes to *)
+      let shape := match real with
+                   | [] => true
+                   | _ => match note_url real text with
+                          | Some m => str_eqb m (net_escape (html_unescape m)) && is_markup_type ctype
+                          | None => false
+                          end
+                   end in
+      code (negb shape) (resp_inert ctype real (rebuild real benign)) 0
   end.
 
 (* classes: 0/10/20 = payload without any character the escapers touch (trivial);
@@ -419,4 +433,5 @@ Definition classify (c : case) : N :=
   | CSame svc site _ _ _ _ => 30 + svc
   | CJson svc msg _ _ _ => if json_special msg then 21 + svc else 20
   | CDiverged svc _ _ _ _ => 40 + svc
+  | CNote svc _ _ _ real _ => 50 + svc + (match real with [] => 2 | _ => 0 end)
   end.
